@@ -197,8 +197,16 @@ fn run_history(ops: &[ROp], sched: &[usize], istrings: &[String], replica: usize
     let (tx_req, rx_req) = channel::<Option<String>>();
     let (tx_ack, rx_ack) = channel::<()>();
     let interferer = std::thread::spawn(move || {
+        let mut k = 0u32;
         while let Ok(Some(s)) = rx_req.recv() {
             let _ = Symbol::from(s.as_str());
+            // slot names are per-thread state: another thread that parses fresh-looking names, draws fresh slots or
+            // uses numeric slots must not shift anything in the observed thread
+            let _ = Slot::named(&format!("f{}", 700 + 13 * k));
+            let _ = Slot::fresh();
+            let _ = Slot::numeric(900 + k);
+            let _ = Slot::named(&format!("other{k}"));
+            k += 1;
             tx_ack.send(()).unwrap();
         }
     });
